@@ -129,6 +129,22 @@ func checkSelection(c *core.Ctx) {
 				return true
 			}
 			n++
+			// whose NoRetractions flag is consulted: it must be the input's (the stream the LIMIT is applied to), not the
+			// flag of the node being built, which never retracts by construction
+			ast.Inspect(is.Cond, func(x ast.Node) bool {
+				se, ok := x.(*ast.SelectorExpr)
+				if !ok || se.Sel.Name != "NoRetractions" {
+					return true
+				}
+				owner := core.ExprStr(se.X)
+				okOwner := true
+				if p.FName(fn) == "physical.(*Node).Materialize" {
+					okOwner = strings.Contains(owner, ".Source.Schema")
+				}
+				c.Decide(okOwner, "MIR6", key+"/whose NoRetractions", se.Pos(), 1, "the input's retraction flag decides",
+					fmt.Sprintf("the choice between Limit and OrderSensitiveTransform must look at whether the *input* can retract (….Source.Schema.NoRetractions); it looks at %s.NoRetractions, which describes the node's own output", owner))
+				return true
+			})
 			switch ctor {
 			case "OST":
 				c.Decide(tab == wantOST, "MIR6", key, is.Pos(), 8, "OrderSensitiveTransform ⇔ ORDER BY ∨ (LIMIT ∧ ¬NoRetractions)",
@@ -417,6 +433,35 @@ func checkOrderByLess(c *core.Ctx) {
 		if bad == "" && nret < 7 {
 			bad = fmt.Sprintf("only %d returning paths explored (both loops expected)", nret)
 		}
+		// each loop runs over the whole slice it compares (a tie-break over fewer columns merges different rows)
+		ast.Inspect(fn.Decl.Body, func(n ast.Node) bool {
+			fs, ok := n.(*ast.ForStmt)
+			if !ok || fs.Cond == nil {
+				return true
+			}
+			be, ok := fs.Cond.(*ast.BinaryExpr)
+			if !ok {
+				return true
+			}
+			bound := core.ExprStr(be.Y)
+			ast.Inspect(fs.Body, func(m ast.Node) bool {
+				call, ok := m.(*ast.CallExpr)
+				if !ok {
+					return true
+				}
+				se, ok := call.Fun.(*ast.SelectorExpr)
+				if !ok || se.Sel.Name != "Compare" {
+					return true
+				}
+				if ix, ok := se.X.(*ast.IndexExpr); ok {
+					if want := "len(" + core.ExprStr(ix.X) + ")"; bound != want && bad == "" {
+						bad = fmt.Sprintf("the loop comparing %s runs to %s instead of %s: positions beyond the bound are never compared, so different rows can tie (one replaces the other in the tree)", core.ExprStr(ix.X), bound, want)
+					}
+				}
+				return true
+			})
+			return true
+		})
 		c.Decide(bad == "", "ABS4", key, fn.Decl.Pos(), len(outs), "keys by direction, then values ascending, equal ⇒ not less", bad)
 	}
 	c.Floor("ABS4", 2, "orderByItem.Less, outputItem.Less")
